@@ -156,6 +156,58 @@ no request) goes out. -/
 theorem C19_provider_no_credentials (mac : Str → Str → List UInt8) (R : Str) (lookup : Str → Lookup) :
     provider mac R lookup none = .error .noCreds := rfl
 
+/-- Where `rpc.Conn` puts the provider's tokens on the outgoing request: the first one in
+`Authorization: Bearer …`, the others in the `reader_tokens` parameter, nothing else; with no token
+at all the placeholder `Bearer -`. So the credentials a receiver finds are exactly the provider's
+list, and (20-byte MAC) none of them still needs salting. -/
+theorem C19_rpc_placement (mac : Str → Str → List UInt8) (R : Str) (lookup : Str → Lookup)
+    (ts out : List Str) (h : provider mac R lookup (some ts) = .ok out) :
+    headerTokens (.plain (rpcAuthorization out)) ++ rpcReaderTokens out =
+      (if out = [] then [['-']] else out) ∧
+    ((∀ k m, (mac k m).length = 20) →
+      ∀ t ∈ headerTokens (.plain (rpcAuthorization out)) ++ rpcReaderTokens out, ¬ MustSalt t) := by
+  have hplace : headerTokens (.plain (rpcAuthorization out)) ++ rpcReaderTokens out =
+      (if out = [] then [['-']] else out) := by
+    cases out with
+    | nil => simp [rpcAuthorization, rpcReaderTokens, headerTokens_bearer]
+    | cons t rest => simp [rpcAuthorization, rpcReaderTokens, headerTokens_bearer]
+  refine ⟨hplace, fun hmac t ht => ?_⟩
+  rw [hplace] at ht
+  by_cases ho : out = []
+  · simp only [ho, if_true, List.mem_singleton] at ht
+    subst ht
+    rintro ⟨u, s, more, hsp, _⟩
+    simp [splitSlash] at hsp
+  · simp only [ho, if_false] at ht
+    exact (C19_forwarded_secret mac R lookup ts out h).2.2 hmac t ht
+
+/-- Tokens that are not in Arvados format (`Opaque`: neither `v2/<uuid>/<secret>…` nor
+`[0-9a-z]{41,}` — OIDC access tokens, JWTs, anything else) are passed through unchanged by the
+provider, at their position; keepstore refuses them (500, no request); the legacy path puts them
+unchanged into the Authorization header unless the local database knows them (a `v2/x` one-slash
+string is the panic case below). -/
+theorem C19_opaque_passthrough (mac : Str → Str → List UInt8) (R : Str) (lookup : Str → Lookup)
+    (db : Str → Option (Str × Str)) (t : Str) (h : Opaque t) :
+    provOne mac R lookup t = .ok t ∧
+    (∀ ts out i (h1 : i < ts.length) (h2 : i < out.length),
+      provider mac R lookup (some ts) = .ok out → ts[i] = t → out[i] = t) ∧
+    keepGet mac t R = .refused 500 ∧
+    (sV2Slash.isPrefixOf t = false → db t = none → legacyToken mac R db t = .ok t) := by
+  have hs := saltToken_opaque mac t R h
+  refine ⟨by simp [provOne, hs], ?_, by simp [keepGet, keepRemoteToken, hs], ?_⟩
+  · intro ts out i h1 h2 hp hti
+    have hf := (provAll_ok mac R lookup ts out hp).get i h1 h2
+    rw [hti] at hf
+    cases hf with
+    | salted u s more hsp _ _ => exact absurd hsp (h.1 u s more)
+    | already u s more hsp _ _ => exact absurd hsp (h.1 u s more)
+    | nonArvados _ _ ho => exact ho
+    | legacyUnknown _ hob _ _ => rw [h.2] at hob; cases hob
+    | legacyRemote _ hob _ _ _ _ _ => rw [h.2] at hob; cases hob
+    | legacyLocal _ hob _ _ _ _ _ => rw [h.2] at hob; cases hob
+  · intro hp hdb
+    simp [legacyToken, hs, hp, resolveLocal, hdb]
+
 /-! ## Legacy proxy path (saltAuthToken) -/
 
 /-- Full strength, every request (any placement of any number of tokens in Authorization
@@ -273,6 +325,101 @@ theorem C19_legacy_placements (t : Str) :
     exact ⟨encodeOrder (dropKey apiTokenKey (goods items)),
       by simp [bodyStage, hc, hb, hbad, firstToken, hv, ht]⟩
 
+/-- The index-out-of-range crash of `validateAPItoken` (`sp[2]`): it happens for exactly the
+credentials of the form `v2/<x>` with no further '/', and only when such a credential is the first
+one discovered; a crashed or failed call forwards nothing (`.panic`/`.err` carry no request). -/
+theorem C19_legacy_panic (mac : Str → Str → List UInt8) (R : Str) (db : Str → Option (Str × Str)) :
+    (∀ t, legacyToken mac R db t = .panic ↔ ∃ x, t = sV2Slash ++ x ∧ '/' ∉ x) ∧
+    (∀ r, saltAuthToken mac R db r = .panic →
+      ∃ t rest x, discovered r = t :: rest ∧ t = sV2Slash ++ x ∧ '/' ∉ x) := by
+  refine ⟨legacyToken_panic_iff mac R db, fun r h => ?_⟩
+  have hfin : ∀ toks b, finish mac R db r toks b = .panic →
+      ∃ t rest x, toks = t :: rest ∧ t = sV2Slash ++ x ∧ '/' ∉ x := by
+    intro toks b hf
+    unfold finish at hf
+    cases toks with
+    | nil => cases hf
+    | cons t rest =>
+      simp only at hf
+      cases hl : legacyToken mac R db t with
+      | panic =>
+        obtain ⟨x, hx⟩ := (legacyToken_panic_iff mac R db t).mp hl
+        exact ⟨t, rest, x, rfl, hx⟩
+      | err e => rw [hl] at hf; cases hf
+      | ok t' => rw [hl] at hf; simp only at hf; split at hf <;> cases hf
+  unfold saltAuthToken at h
+  cases hs : bodyStage r with
+  | failed => rw [hs] at h; cases h
+  | unmodelled => rw [hs] at h; cases h
+  | skipped =>
+    rw [hs] at h
+    obtain ⟨t, rest, x, h1, h2⟩ := hfin _ _ h
+    exact ⟨t, rest, x, by simp [discovered, hs, h1], h2⟩
+  | parsed ts nb =>
+    rw [hs] at h
+    obtain ⟨t, rest, x, h1, h2⟩ := hfin _ _ h
+    exact ⟨t, rest, x, by simp [discovered, hs, h1], h2⟩
+
+/-- The forwarding layers `remoteClusterRequest` and `proxy.Do`: a request is sent only for a
+configured remote and only if `saltAuthToken` produced one; its credential-bearing parts
+(Authorization, Cookie, query string, body) are exactly those of the rebuilt request — none of
+these header names is among the hop-by-hop headers `proxy.Do` drops —, so (20-byte MAC) nothing the
+receiver can read a credential from holds an unsalted v2 token; every other forwarded header is an
+incoming non-credential header with its value, and the proxy headers are built from the incoming
+X-Forwarded-For / X-Forwarded-Proto / Via values, the URL scheme and a literal. -/
+theorem C19_legacy_wire (mac : Str → Str → List UInt8) (configured : Bool) (R : Str)
+    (db : Str → Option (Str × Str)) (scheme : Str) (r : Req) (others : List (Str × Str)) (w : Wire)
+    (h : remoteClusterRequest mac configured R db scheme r others = .sent w) :
+    configured = true ∧ saltAuthToken mac R db r = .fwd w.fwd ∧
+    (hAuthorization ∉ dropHeaders ∧ hCookie ∉ dropHeaders ∧ hContentType ∉ dropHeaders) ∧
+    (∀ kv ∈ w.others, kv ∈ others ∧ kv.1 ∉ dropHeaders) ∧
+    (w.xff = [] ∨ ∃ v, hdrGet hXFF others = some v ∧ w.xff = v ++ [',']) ∧
+    (w.xfp = scheme ∨ hdrGet hXFP others = some w.xfp) ∧
+    (w.via = [viaSuffix] ∨ ∃ v, hdrGet hVia others = some v ∧ w.via = [v, viaSuffix]) ∧
+    ((∀ k m, (mac k m).length = 20) → ∀ t ∈ forwardedTokens r w.fwd, ¬ MustSalt t) := by
+  obtain ⟨hc, hs, hw⟩ := remoteClusterRequest_sent mac configured R db scheme r others w h
+  refine ⟨hc, hs, by decide, ?_, ?_, ?_, ?_, fun hmac => C19_legacy_request_clean mac hmac R db r w.fwd hs⟩
+  · intro kv hkv
+    rw [hw] at hkv
+    simp only [proxyDo, List.mem_filter, Bool.and_eq_true, Bool.not_eq_true'] at hkv
+    refine ⟨hkv.1, fun hm => ?_⟩
+    have : dropHeaders.contains kv.1 = true := List.contains_iff_mem.mpr hm
+    rw [this] at hkv
+    exact absurd hkv.2.1.1.1 (by simp)
+  · rw [hw]
+    simp only [proxyDo]
+    cases hg : hdrGet hXFF others with
+    | none => exact Or.inl rfl
+    | some v =>
+      by_cases hv : v = []
+      · simp [hv]
+      · exact Or.inr ⟨v, rfl, by simp [hv]⟩
+  · rw [hw]
+    simp only [proxyDo]
+    cases hg : hdrGet hXFP others with
+    | none => exact Or.inl rfl
+    | some v =>
+      by_cases hv : v = []
+      · simp [hv]
+      · exact Or.inr (by simp [hv])
+  · rw [hw]
+    simp only [proxyDo]
+    cases hg : hdrGet hVia others with
+    | none => exact Or.inl rfl
+    | some v => exact Or.inr ⟨v, rfl, rfl⟩
+
+/-- An unconfigured remote is refused (404) before anything is looked at; an error or a crash of
+`saltAuthToken` sends nothing. -/
+theorem C19_legacy_wire_refusals (mac : Str → Str → List UInt8) (R : Str)
+    (db : Str → Option (Str × Str)) (scheme : Str) (r : Req) (others : List (Str × Str)) :
+    remoteClusterRequest mac false R db scheme r others = .notFound ∧
+    (∀ e, saltAuthToken mac R db r = .err e →
+      remoteClusterRequest mac true R db scheme r others = .err e) ∧
+    (saltAuthToken mac R db r = .panic →
+      remoteClusterRequest mac true R db scheme r others = .panic) := by
+  refine ⟨by simp [remoteClusterRequest], fun e he => by simp [remoteClusterRequest, he],
+    fun hp => by simp [remoteClusterRequest, hp]⟩
+
 /-! ## keepstore -/
 
 /-- The token keepstore uses towards cluster R is `SaltToken tok R`; if salting fails no request is
@@ -369,6 +516,11 @@ example : keepSeq mac20 [("z1111".toList, "v2/u/s".toList), ("z2222".toList, "v2
   have h3 : "s".toList.length ≠ saltLen := by decide
   simp only [keepSeq, List.map, keepRemoteToken, h, if_pos h3]
 
+-- C19_opaque_passthrough / C19_legacy_panic: an OIDC-like token is Opaque; `v2/abc` is the panic shape
+example : Opaque "eyJhbGciOiJSUzI1NiJ9.payload.sig".toList :=
+  ⟨by intro u s more h; simp [splitSlash] at h, by decide⟩
+example : ∃ x, "v2/abc".toList = sV2Slash ++ x ∧ '/' ∉ x := ⟨"abc".toList, by decide, by decide⟩
+
 -- C19_secret_not_in_salted: a 50-character secret that does not occur in the uuid
 example : '/' ∉ "3kg6k6lzmp9kj5cpkcoxie963cmvjahbt2fod9zru30k1jqdmi".toList ∧
     40 < "3kg6k6lzmp9kj5cpkcoxie963cmvjahbt2fod9zru30k1jqdmi".toList.length := by decide
@@ -386,6 +538,17 @@ example : ∃ b, saltAuthToken mac20 "zrmte".toList (fun _ => none) witnessF7 =
       queryOut witnessF7, b, .stripped⟩ :=
   C19_legacy_user_token_forwarded mac20 _ _ witnessF7 "v2/u/secret".toList [] "u".toList
     "secret".toList [] (by decide) (by decide) (by decide) (by decide) (fun _ => ⟨_, rfl, by decide⟩)
+
+-- C19_legacy_wire: the F7 witness goes out on the wire with one dropped and one kept header
+example : ∃ w, remoteClusterRequest mac20 true "zrmte".toList (fun _ => none) "https".toList witnessF7
+    [("Connection".toList, "close".toList), ("Accept".toList, "*/*".toList)] = .sent w ∧
+    w.others = [("Accept".toList, "*/*".toList)] := by
+  obtain ⟨b, hb⟩ := C19_legacy_user_token_forwarded mac20 "zrmte".toList (fun _ => none) witnessF7
+    "v2/u/secret".toList [] "u".toList "secret".toList [] (by decide) (by decide) (by decide) (by decide)
+    (fun _ => ⟨_, rfl, by decide⟩)
+  refine ⟨_, by simp only [remoteClusterRequest, hb]; rfl, ?_⟩
+  show List.filter _ _ = _
+  decide
 
 -- the media types of the F19c witnesses are recognised, the misspelt one of F7 is not a form
 example : isFormType (some "application/x-www-form-urlencoded; charset=utf-8".toList) = true := by decide
